@@ -476,6 +476,44 @@ pub fn emit_negative(prop: &str, g: GenCfg, seed: u64, pairs: usize, out: &mut O
     out.bump("negative_pairs", made as u64);
 }
 
+/// Negative programs whose declaration gives two archetypes the same id (explicitly or through
+/// an implicit successor), each with the id-free twin.
+pub fn emit_arch_collisions(g: GenCfg, seed: u64, pairs: usize, out: &mut Out) {
+    let mut runner = crate::seeded(1, seed ^ 0xC08);
+    let mut made = 0;
+    let mut tries = 0;
+    while made < pairs && tries < pairs * 400 {
+        tries += 1;
+        let (mut decl, _) = sample(&mut runner, &gen::case_strategy(g, 0, world_name(made, 0)));
+        for a in decl.archs.iter_mut() {
+            for c in a.comps.iter_mut() {
+                c.id = None;
+            }
+        }
+        let first = match decl.resolve(0) {
+            Err(IdError::AlreadyAssigned { first, .. }) => first,
+            _ => continue,
+        };
+        if !first.starts_with("Arch") {
+            continue;
+        }
+        let mut twin = decl.clone();
+        for a in twin.archs.iter_mut() {
+            a.id = None;
+        }
+        let pops = vec![1u8; decl.archs.len()];
+        let neg = WorldProg { modname: "w0".into(), decl: decl.clone(), pops: pops.clone(), queries: vec![], ids: true };
+        let pos = WorldProg { modname: "w0".into(), decl: twin, pops, queries: vec![], ids: true };
+        let (nf, tf) = (format!("nc08_{}.rs", made), format!("nc08_{}_twin.rs", made));
+        out.files.insert(nf.clone(), program(&[neg]));
+        out.files.insert(tf.clone(), program(&[pos]));
+        out.jobs.push(Job { id: format!("C08-n{}", made), kind: "reject", file: nf, flags: vec![], expect: "is already assigned to".into(), note: format!("two archetypes share an id: {}", decl.archs.iter().map(|a| format!("{}:{:?}", a.name, a.id)).collect::<Vec<_>>().join(" ")) });
+        out.jobs.push(Job { id: format!("C08-n{}-twin", made), kind: "accept", file: tf, flags: vec![], expect: "-".into(), note: "twin without explicit archetype ids".into() });
+        made += 1;
+    }
+    out.bump("negative_pairs", made as u64);
+}
+
 pub fn main_emit(m: &HashMap<String, String>) -> i32 {
     let prop = m.get("prop").cloned().unwrap_or_else(|| "C05".into());
     let seed: u64 = m.get("seed").map(|s| s.parse().unwrap()).unwrap_or(1);
@@ -532,6 +570,15 @@ pub fn main_emit(m: &HashMap<String, String>) -> i32 {
             }
             "C18" => {
                 crate::neg18::emit_c18(seed, pairs, &mut out);
+            }
+            "C08" => {
+                // declarations in which two ARCHETYPES would share an id: if such a world compiled,
+                // both archetypes would issue equal handles (C08 "not across archetypes")
+                g.flags = 0;
+                g.lits = false;
+                g.ids = 2;
+                g.max_comps = 3;
+                emit_arch_collisions(g, seed, pairs, &mut out);
             }
             _ => return 3,
         }
